@@ -61,6 +61,20 @@ VK_MAIN()
                 if (ti >= 0 && ti < VK_TN) t[ti] = vin.b[k];
                 if (pi >= 0 && pi < VK_PM) p[pi] = vin.b[VK_NSYM + k];
         }
+#elif defined(VK_BACKDROP)
+        /* long instances: a constant backdrop with symbolic windows at both ends of text and pattern
+         * (positions < VK_W1 and >= len - VK_W2); the window contents range over all 13 classes */
+        {
+                int k = 0;
+                for (int i = 0; i < VK_TN; i++) {
+                        if (i < VK_W1 || i >= VK_TN - VK_W2) { VK_ASSUME(vin.b[k] < VK_NSYMB); t[i] = vin.b[k]; k++; }
+                        else t[i] = (uint8_t)((i * VK_BD_A + VK_BD_B) % VK_BD_MOD);
+                }
+                for (int i = 0; i < VK_PM; i++) {
+                        if (i < VK_W1 || i >= VK_PM - VK_W2) { VK_ASSUME(vin.b[k] < VK_NSYMB); p[i] = vin.b[k]; k++; }
+                        else p[i] = (uint8_t)((i * VK_BD_A + VK_BD_B) % VK_BD_MOD);
+                }
+        }
 #else
         for (int i = 0; i < VK_TN; i++) { VK_ASSUME(vin.b[i] < VK_NSYMB); t[i] = vin.b[i]; }
         for (int i = 0; i < VK_PM; i++) { VK_ASSUME(vin.b[VK_TN + i] < VK_NSYMB); p[i] = vin.b[VK_TN + i]; }
@@ -79,6 +93,13 @@ VK_MAIN()
         int r = bpm_256(t, p, VK_TN, VK_PM);
         int e = bpm_block(t, p, VK_TN, VK_PM);
         VK_ASSERT(r == e, "C11: 256-bit single-word variant equals the blocked routine");
+#elif VK_MODE == 6
+        /* the pairwise distance is the blocked routine's value with the longer sequence as text - for lengths around the
+         * 64-symbol word boundary (a dispatch to a single-word kernel must not change the value) */
+        float d1 = calc_distance(t, p, VK_TN, VK_PM);
+        float d2 = calc_distance(p, t, VK_PM, VK_TN);
+        int e = bpm_block(t, p, VK_TN, VK_PM);
+        VK_ASSERT(d1 == (float)e && d2 == (float)e, "C11: the pairwise distance equals the blocked routine on (longer, shorter)");
 #elif VK_MODE == 4
         /* a has length VK_TN, b has length VK_PM (VK_TN >= VK_PM) - both argument orders */
         float d1 = calc_distance(t, p, VK_TN, VK_PM);
